@@ -8,9 +8,13 @@ TECH = "bounded symbolic execution of the real source (shadow import + if-conver
 CLAIMED = {
     "C01": ("for every code sequence of length <= N over {null,0..G-1}, every value/null placement of the dtype, every boolean mask, "
             "slice and integer-position mask, numba.group_size/count/sum/sum_squares/mean/min/max/first/last (single pass) equal the "
-            "per-group definition; decided by the solver within N<=4,G<=2 (quick) / N<=6(8),G<=3 (thorough)",
-            "array level only: NumPy/numba/concurrent.futures models (DESIGN 3.5), sums in exact arithmetic; pandas result assembly "
-            "(observed-label filter, sorting, naming) is outside the claim", "DESIGN.md 4 C01"),
+            "per-group definition; and the real public methods GroupBy.sum/mean/min/max/first/last/count/size with the non-transform body of "
+            "_apply_gb_reduction (count frame, observed-label filter, label permutation, mean = sum/count) list exactly the labels with a selected "
+            "row (all labels with observed_only=False), each once, with values satisfying the definition, for integer/float/text labels in sorted and "
+            "unsorted first-appearance order and categorical labels without rows; decided by the solver within N<=4,G<=2 (quick) / N<=6(8),G<=3 (thorough)",
+            "NumPy/numba/concurrent.futures models (DESIGN 3.5), sums in exact arithmetic; public path on a labelled contract model of flat pandas "
+            "objects (DESIGN 0 item 9), candidates replayed through GroupBy(keys); label ORDER, MultiIndex results, margins and temporal value "
+            "conversion are outside", "DESIGN.md 4 C01"),
     "C04": ("for every code sequence, value/null placement, mask kind and every split into 1..4 blocks (thread counts and chunked value "
             "lists) the block-wise merge equals the single-pass result and the per-group definition; decided by the solver, bounded "
             "(N<=4,G<=2 quick; N<=6(8),G<=3 thorough)",
@@ -21,21 +25,22 @@ CLAIMED = {
 CLAIMED["C08"] = (
     "at every selected row with a non-null key cumsum/cummin/cummax/cumcount equal the prefix reduction of the group's non-null values "
     "(running sum null after a null with skip_na=False), with the accumulator dtype the library documents, on both glue paths "
-    "(with/without null keys); solver-decided for all code sequences/values/null placements/masks within N<=4,G<=2 (quick), N<=6(8),G<=3 (thorough)",
+    "(with/without null keys), also through the public GroupBy.cum* methods on contiguous and chunked states; solver-decided for all code sequences/values/null placements/masks within N<=4,G<=2 (quick), N<=6(8),G<=3 (thorough)",
     "NumPy/numba models; exact arithmetic; 64-bit inputs bounded so that no partial sum overflows; unselected/null-key rows are C05/C06",
     "DESIGN.md 4 C08")
 
 CLAIMED["C09"] = (
     "at every selected row with a non-null key rolling sum/mean/min/max/shift/diff equal the reduction over the last W selected rows of "
     "the group (null unless min_periods non-null values), temporal results keep dtype and time unit and never pass through a float array "
-    "(side obligation |v|<=2^53 at every int->float store); solver-decided for all code sequences/values/null placements/masks within "
-    "N<=4,G<=2,W<=2 (quick), N<=6(7),W<=3 (thorough)",
+    "(side obligation |v|<=2^53 at every int->float store), also through the public GroupBy.rolling_*/shift/diff methods on contiguous and "
+    "chunked states; solver-decided for all code sequences/values/null placements/masks within N<=4,G<=2,W<=2 (quick), N<=6(7),W<=3 (thorough)",
     "NumPy/numba models; exact arithmetic; rolling_mean of timedelta and the group-sorted (pandas) layout are outside; unselected/null-key rows are C05/C06",
     "DESIGN.md 4 C09")
 
 CLAIMED["C15"] = (
     "the positional arrays behind head/tail/nth list exactly the first/last n (n-th) selected rows of every group, -1 elsewhere, never a "
-    "null-key row: solver-decided for all code sequences and masks within N<=4,G<=2 (quick) / N<=6,G<=3 (thorough); for groups of ANY "
+    "null-key row, also through the public GroupBy.head/tail/nth on contiguous and chunked states (n up to N+1): solver-decided for all code "
+    "sequences and masks within N<=4,G<=2 (quick) / N<=6,G<=3 (thorough); for groups of ANY "
     "size by a one-step inductive query over the kernels' per-group counters with their real dtype (explicit wrap-around)",
     "positions only (pandas iloc/set_index/sort_index in _get_row_selection outside); the inductive invariant is stated in DESIGN 3.6",
     "DESIGN.md 4 C15")
@@ -91,7 +96,9 @@ CLAIMED["C02"] = (
     "cumprod arithmetic) give the null code iff some key is null (any key position), equal codes iff equal key tuples, label-at-code = key tuple, "
     "distinct labels, for all per-key codes; (b) _monotonic_factorization over every chunk layout: on the returned prefix label[code]=key, labels "
     "strictly increasing, no null key labelled; (c) the group-sorted indexer (contiguous/chunked codes, every label order) lists exactly the non-null "
-    "rows group by group in ascending position and sizes equal count_ikey; (e) factorize_range_index gives code i to row i; N<=4 (quick), N<=6 (thorough)",
+    "rows group by group in ascending position and sizes equal count_ikey; (e) factorize_range_index gives code i to row i; (g) GroupBy.groups lists per "
+    "label exactly the ascending positions of its rows (labels without rows absent) and ikey_count adds up to the non-null rows, for symbolic codes on "
+    "contiguous and chunked states; N<=4 (quick), N<=6 (thorough)",
     "pandas/pyarrow 1-D factorizers and drop_duplicates/get_indexer assumed by contract (factorize_1d stubbed); chunk-local codes/pointer tables under C13/C03",
     "DESIGN.md 4 C02")
 
@@ -99,17 +106,23 @@ CLAIMED["C20"] = (
     "nanops.nansum/nanmean/nanmin/nanmax/count equal the NumPy nan-function semantics for every float64/int64 array of length <= 4 (6) with "
     "symbolic values and NaN placement and every thread count 1..4 (8, incl. more threads than elements: every array read carries a bounds "
     "obligation); column/row-wise sum/min/max on shapes <= 3x3; nanvar/nanstd as polynomial identities against the two-pass definition per "
-    "enumerated null pattern; nb_dot(a,b) = a @ b for shapes <= 3x3; decided by the solver on the real source",
-    "bools_to_categorical and pretty_cut (pandas/string code), the min_count branch and datetime converters are outside; exact arithmetic",
+    "enumerated null pattern; nb_dot(a,b) = a @ b for shapes <= 3x3; pretty_cut puts every symbolic value into the bin whose printed bounds "
+    "contain it (nulls into none) for 11 (18) enumerated edge lists; bools_to_categorical labels every row of a symbolic boolean frame (<= 3x2) "
+    "with exactly its true columns; decided by the solver on the real source",
+    "the min_count branch, datetime converters, pretty_cut's precision argument and timedelta data are outside; exact arithmetic",
     "DESIGN.md 4 C20")
 
 CLAIMED["C16"] = (
-    "in part: (i) the real GroupBy.var/std bodies (one-pass formula over the real sum / sum-of-squares / count kernels) equal the two-pass sample "
+    "(i) the real GroupBy.var/std bodies (one-pass formula over the real sum / sum-of-squares / count kernels) equal the two-pass sample "
     "variance as a polynomial identity in exact arithmetic for every code sequence and null pattern of the bound and all non-null values (null when "
     "n <= ddof), ddof in {0,1}, std^2 = var; (ii) the real GroupBy.apply routes, for every code sequence, mask and 1-2 value columns, exactly the "
-    "selected values of each observed group in row order to an uninterpreted user function and its results to that group's position; N<=4 (quick), N<=5 (thorough)",
-    "the floating-point rounding bound of the one-pass formula, NumPy's median/quantile kernels, agg/ratio/density (pandas arithmetic) are NOT decided; "
-    "_apply_gb_reduction is cut to the kernel path for var/std", "DESIGN.md 4 C16")
+    "selected values of each observed group in row order to an uninterpreted user function and its results to that group's position, also for "
+    "vector-valued functions (input-aligned / fixed length, incl. the real non-reduce probe and the kind of index built) and for GroupBy.median/quantile "
+    "(np.median/np.quantile as uninterpreted symbols); (iii) agg([f1,f2]) equals the individual calls side by side, ratio = sum/sum, single-key "
+    "density = 100 x share (values and sizes), single-key margin rows = the aggregation over all selected rows (mean = total sum / total count); "
+    "N<=4 (quick), N<=5 (thorough)",
+    "the floating-point rounding bound of the one-pass formula, NumPy's own median/quantile kernels, multi-key densities/margins and subset_ratio are NOT "
+    "decided; _apply_gb_reduction is cut to the kernel path for var/std; composites run on the labelled pandas contract model (DESIGN 0 item 9)", "DESIGN.md 4 C16")
 
 CLAIMED["C12"] = (
     "in part (dtype / exactness / layout): for every integer width, bool, float32/64 and datetime64/timedelta64 in s/ms/us/ns, "
@@ -124,8 +137,9 @@ CLAIMED["C19"] = (
     "array level: in a sample of the configurations of every kernel family (reductions with threads/chunks/masks, cumulative, rolling, row "
     "selection, transform, GroupBy state operations) no store into an array owned by the caller or by the GroupBy state is reachable for any "
     "input within the bound (each store site is a guarded obligation decided by the solver), and no returned array shares storage with one; "
-    "the same obligation is active in every other property's run",
-    "zero-copy views made by pyarrow/pandas, pandas objects handed out from caches and aliasing of returned pandas objects are outside",
+    "arrays handed to the user function of apply never alias caller storage; results of the public reduction path share no buffer with an input "
+    "or with anything the grouping object retains (replay: edit the result in place, repeat the call); the same obligation is active in every other property's run",
+    "zero-copy views made by pyarrow/pandas and pandas objects handed out from caches are outside",
     "DESIGN.md 4 C19")
 
 NOT_APPLICABLE = {
